@@ -15,7 +15,7 @@ import os
 import re
 import shutil
 
-from .common import add_failure, bump, new_outcome
+from .common import LEAN, SRC, VERIF, add_failure, bump, new_outcome
 
 PROP = "C13"
 PROPS_FILES = ["CogentModel/Props/C13.lean"]
@@ -26,12 +26,15 @@ TRUSTED = [
     "incl. the List-Char mirrors of str.replace / in / endswith / pathlib stem,suffixes / get_format_suffixes / the two regexes) "
     "and Model/DataStoreSqlite.lean (DataStoreSqlite over an abstract results table), tied by per-operation correspondence "
     "on random histories against the real stores and by an exhaustive short-string correspondence of the naming layer",
+    "translator/c13_names2lean.py (AST translation of the naming slice of DataStoreDirectory into Gen/C13Names.lean, conventions N1-N4 in its header; "
+    "get_format_suffixes, str.replace, pathlib stem/name and the regex primitives stay hand models tied by the short-string stream)",
     "Spec/DataStoreDict.lean (two dictionaries, one-line semantics per operation), tied to the Python oracle of spec_check on the same histories",
     "the OS file system, pathlib.glob, sqlite3, gzip and md5 are modelled (association lists, abstract checksum function), not verified",
 ]
 ASSUMPTIONS = [
     "identifiers are non-empty, do not start with '.' or '/', and are lower-case ASCII [a-z0-9_.-] (the generated domain), plus the "
-    "spellings 'results/<id>', 'logs/<id>' (SQLite) and 'sub/<id>' (directory store); store suffixes are 'fasta', 'fa', 'json'; limit=None; single process",
+    "spellings 'results/<id>', 'logs/<id>' (SQLite) and 'sub/<id>' (directory store), and one record under several spellings (bare, '<id>.<suffix>', "
+    "another format's extension); store suffixes are 'fasta', 'fa', 'json' and the two-part (compressed) 'fa.gz', 'fasta.bz2'; limit=None; single process",
     "identifiers with compression suffixes (.gz) occur only in the model-vs-code correspondence, not in the spec-level search, and are not combined "
     "with the sub-directory spellings (a gzip-compressed stray file under md5/ makes md5() raise UnicodeDecodeError)",
     "after an operation that raises FileNotFoundError inside the drop loop the rest of that history is not compared "
@@ -45,6 +48,28 @@ SFXS = ["fasta", "fa", "json"]
 ZSFXS = ["fa.gz", "fasta.bz2"]
 MODES = ["w", "a", "r"]
 NCP = "not_completed/"
+
+
+GEN_FILE = LEAN / "CogentModel" / "Gen" / "C13Names.lean"
+
+
+def generate(ctx):
+    """re-translate the naming slice of DataStoreDirectory from the CURRENT source (translator/c13_names2lean.py);
+    Props/C13.lean proves each generated definition equal to the hand model"""
+    import json
+    import sys
+
+    sys.path.insert(0, str(VERIF))
+    from translator import c13_names2lean as tr
+
+    try:
+        lean, info, problems = tr.translate(SRC / "app" / "data_store.py")
+    except (tr.TranslationError, SyntaxError) as e:
+        return [f"c13_names2lean: {e}"]
+    ctx.notes.append(f"c13_names2lean: {json.dumps(info)[:700]}")
+    if lean is not None and tr.write_if_changed(GEN_FILE, lean):
+        ctx.notes.append("Gen/C13Names.lean was rewritten (the naming code differs from the last generated text)")
+    return [f"c13_names2lean: {p}" for p in problems]
 
 
 def md5hex(s):
@@ -569,7 +594,8 @@ def correspondence(ctx):
         "adversarial identifier pools on real DataStoreDirectory and DataStoreSqlite objects vs the Lean state machines, "
         "comparing every operation's result (member id / None / exception class), the existence of not_completed/ and logs/ after every call, "
         "and every observation (sorted member ids, read(), md5, log records) and validate(); identifiers incl. the spellings 'sub/<id>' and "
-        "'logs/<id>', 'not_completed/<id>', 'md5/<id>' (stray files); spec: Lean dictionary spec vs the Python oracle; "
+        "'logs/<id>', 'not_completed/<id>', 'md5/<id>' (stray files); store suffixes fasta/fa/json and (20%) the two-part fa.gz/fasta.bz2; validate() also against the model's validateDir; "
+        "spec: Lean dictionary spec vs the Python oracle; "
         "non-trivial = distinct histories with >= 2 state-changing operations"
     )
     cfg = detect_cfg(ctx)
@@ -619,6 +645,12 @@ def correspondence(ctx):
                     if want_v is not None and v != want_v:
                         bad = (j, "validate() vs member-wise md5", want_v, v)
                         break
+                    mv = (mm.get("obs") or {}).get("validate")
+                    if want_v is not None and mv is not None and v != mv:
+                        bad = (j, "validate() vs the model's validateDir", mv, v)
+                        break
+                    if isinstance(v, list):
+                        bump(out, "validate_rows", f"incorrect={min(v[1], 2)},missing={min(v[2], 2)},log={v[3]}")
             if bad:
                 j, what, exp, got = bad
                 add_failure(out, "corr", f"{kind} store model differs from the real store ({what} of op {j}: {ops[j]})",
@@ -1044,6 +1076,9 @@ def spec_check(ctx, budget):
         "re-opened store: exhaustive histories of <=3 write/write_not_completed/drop operations over {a, ba, a.<sfx>} and over the dot family {x, x.y.<sfx>, x.y.z.<sfx>} in modes w,a "
         "then seeded random histories (1-40 ops, modes w/a/r, close+reopen) over identifiers that are suffixes/prefixes of one another "
         "with and without the format suffix, dot-delimited prefix families, synonym spellings ('results/<id>', 'sub/<id>') (+ a share of identifiers containing the suffix); "
+        "spelling box: every pair (sampled triples) of operations on ONE record spelled 'a' / 'a.fasta' / 'a.txt'; two-part-suffix box: every single operation, sampled pairs/triples in stores "
+        "with suffix 'fa.gz' / 'fasta.bz2'; 20% of the random directory histories use a two-part suffix, 30% address few records through all their spellings; "
+        "a rejected call that returns without raising does not end the history (the state is judged by the following observations); "
         "io stream: every kind of valid result object (incl. falsy ones: empty dict/list, 0, '', zero-row Table, zero-length alignment) and genuine NotCompleted "
         "objects written through write_json / write_seqs / write_tabular / write_db .main() to directory and SQLite stores, membership + content/md5 vs the dictionary; "
         "checked per call: rejected (read-only / append-existing) => raises IOError (SQLite drop on a read-only db: OperationalError), accepted => no exception; "
